@@ -131,6 +131,9 @@ ASSIGNED_IN = [
     ("deflate_stored.c", "deflate_stored"), ("deflate.c", "deflateParams"), ("deflate.c", "deflateSetDictionary"),
     ("deflate.c", "deflateTune"), ("deflate.c", "deflatePrime"), ("inflate.c", "inflateResetKeep"), ("inflate.c", "inflateSync"),
     ("inflate.c", "inflateSetDictionary"), ("inflate.c", "inflatePrime"), ("inflate.c", "inflateReset2"),
+    ("infback.c", "inflateBack"), ("infback.c", "inflateBackInit"), ("inflate.c", "inflateCopy"), ("deflate.c", "deflateCopy"),
+    ("inflate.c", "inflateGetHeader"), ("deflate.c", "deflateSetHeader"), ("inflate.c", "inflate"), ("deflate.c", "deflate"),
+    ("deflate.c", "deflateInit2"), ("inflate.c", "inflateInit2"), ("inflate.c", "updatewindow"),
 ]
 
 
